@@ -68,6 +68,13 @@ Lemma eval_NFor_cond names f e s c body : eval (S f) e s (NFor (Some (F.embed na
   wloop f e (F.embed names c) body f s.
 Proof. destruct c; reflexivity. Qed.
 
+Lemma eval_NIf1 f e s c cns : eval (S f) e s (NIf c cns None) =
+  match eval f e s c with
+  | (OVal v, e1, s1) => if truthy s1 v then eblock f e1 s1 cns else (OVal VNil, e1, s1)
+  | other => other
+  end.
+Proof. reflexivity. Qed.
+
 Lemma sbeq_refl (a : list N) : beq a a = true.
 Proof. unfold beq. destruct (list_eq_dec N.eq_dec a a); [reflexivity|contradiction]. Qed.
 Lemma sbeq_neq (a b : list N) : a <> b -> beq a b = false.
@@ -282,7 +289,7 @@ Section Names.
     induction n as [n IH] using lt_wf_ind.
     destruct n as [|n]; [intros st rho e s f top _ _ _ _ _; exact Logic.I|].
     intros st rho e s f top Hinv Hwf Hk Hf Hnf. pose proof (sem_inv_env_ok rho e s Hinv) as Henv.
-    destruct st as [x|i x|x|c t el|c b].
+    destruct st as [x|i x|x|c t el|c t|c b].
     - (* x := e *)
       cbn [P.embed_stmt P.wf_stmt P.next_k P.sheight P.run_stmt] in *.
       apply andb_true_iff in Hwf. destruct Hwf as [_ Hwf].
@@ -320,6 +327,18 @@ Section Names.
         destruct (P.run_stmts n rho el F.VNil) as [[[rho' v]|xx]|]; [| |exact Logic.I].
         * destruct H as [s' [H Hinv']]. exists e, s'. split; assumption.
         * destruct H as [s' H]. exists e, s'. exact H.
+    - (* if without else *)
+      rewrite PF.wf_SIf1 in Hwf. apply andb_true_iff in Hwf. destruct Hwf as [Hwc Hwt].
+      rewrite PF.sheight_SIf1 in Hf. destruct f as [|f]; [lia|].
+      rewrite PF.embed_SIf1, PF.run_SIf1, eval_NIf1, (sem_scalar names rho c (S f) e s ltac:(lia) Hwc Henv).
+      destruct (F.sev rho c) as [vc|[|]]; cbn [lift]; try (eexists; eexists; reflexivity).
+      rewrite truthy_inj.
+      destruct (F.struthy vc).
+      + pose proof (eblock_list n f (IH n ltac:(lia)) ltac:(lia) t rho e s Hinv Hwt ltac:(lia)) as H.
+        destruct (P.run_stmts n rho t F.VNil) as [[[rho' v]|xx]|]; [| |exact Logic.I].
+        * destruct H as [s' [H Hinv']]. exists e, s'. split; assumption.
+        * destruct H as [s' H]. exists e, s'. exact H.
+      + exists e, s. split; [reflexivity|exact Hinv].
     - (* for *)
       rewrite PF.wf_SWhile in Hwf. apply andb_true_iff in Hwf. destruct Hwf as [Hwc Hwb].
       rewrite PF.sheight_SWhile in Hf. destruct f as [|f]; [lia|].
@@ -379,7 +398,7 @@ Section Names.
   Proof.
     induction l as [|st r IH]; intros k acc; [reflexivity|].
     rewrite PF.embed_stmts_cons. cbn [fold_left].
-    destruct st as [x|i x|x|c t el|c b]; cbn [P.embed_stmt]; try apply IH.
+    destruct st as [x|i x|x|c t el|c t|c b]; cbn [P.embed_stmt]; try apply IH.
     destruct x; cbn [F.embed]; apply IH.
   Qed.
 
